@@ -45,6 +45,8 @@ def plan(tier, seed):
     env.setup()
     for name in corpus.rule_files():
         specs.append({"mode": "C", "tier": tier, "seed": seed, "file": name})
+    for ext_ in ("rul", "order", "deploy"):
+        specs.append({"mode": "C", "tier": tier, "seed": seed, "file": "vf_extra." + ext_})
     return specs
 
 
@@ -402,6 +404,19 @@ def own_pattern(raw):
     return re.sub(r"\s+", " ", pat)
 
 
+EXTRA_RULES = "\n".join([
+    r"interface ~/GigabitEthernet\d+/\d+/\d+$/",
+    r"~/xe-\d+/\d+/\d+/",
+    r"port */\d+/\d+/ speed *",
+    r"load limit 80%",
+    r"threshold */\d+%/ warn",
+    r"cpu 90% alarm *",
+    r"usage *% of */\d+/",
+    r"path */[a-z]+(?:/[a-z]+)+/ weight *",
+    r"sampler *  %timeout=45",
+]) + "\n"
+
+
 def run_C(spec, acc):
     from vf import corpus
     from annet.rulebook.patching import compile_patching_text
@@ -413,11 +428,16 @@ def run_C(spec, acc):
     rng = random.Random("C07/C/%s/%s" % (name, spec["seed"]))
     nmut = 1 if spec["tier"] == "quick" else 3
     vendors_for_file = [v for v in corpus.RULE_HW if v == base or (base == "huawei" and v == "h3c" and ext == "rul")]
-    for vendor in vendors_for_file:
-        for model in corpus.RULE_HW[vendor]:
-            text = corpus.rendered(name, model)
+    jobs = [(vendor, model, None) for vendor in vendors_for_file for model in corpus.RULE_HW[vendor]]
+    if base == "vf_extra":
+        # rule shapes the shipped files use rarely or not at all, but the language allows: regular expressions that contain
+        # slashes, a percent sign inside a word (not a %parameter), several placeholders in one row
+        jobs = [(v_, corpus.RULE_HW[v_][0], EXTRA_RULES) for v_ in ("huawei", "cisco", "juniper")]
+    for vendor, model, extra_text in jobs:
+        if True:
+            text = extra_text if extra_text is not None else corpus.rendered(name, model)
             prefix = registry_connector.get()[vendor].reverse
-            cvendor = base if ext == "rul" else vendor
+            cvendor = vendor if extra_text is not None else (base if ext == "rul" else vendor)
             if ext == "rul":
                 compiled, kind = compile_patching_text(text, cvendor), "patching"
             elif ext == "order":
